@@ -117,8 +117,10 @@ Definition sysv_pass_arg (t : ty) (n_int n_sse : Z) : option (list place) * Z * 
         let ni := Z.of_nat (length (filter (sclass_eqb INTEGER) l)) in
         let ns := Z.of_nat (length (filter (sclass_eqb SSE) l)) in
         (* "if there are no registers available for any eightbyte of an argument, the whole
-           argument is passed on the stack" *)
-        if (6 <? n_int + ni) || (8 <? n_sse + ns) then (None, n_int, n_sse)
+           argument is passed on the stack" (the counters may exceed 6 / 8: they also count the
+           scalar arguments that went to the stack) *)
+        if (negb (ni =? 0) && (6 <? n_int + ni)) || (negb (ns =? 0) && (8 <? n_sse + ns))
+        then (None, n_int, n_sse)
         else (Some (map (fun c => match c with SSE => InSse | NO_CLASS => InNone | _ => InInt end) l), n_int + ni, n_sse + ns)
   end.
 
